@@ -28,12 +28,6 @@ def pynumOp (op : String) (a b : Value) : Option R :=
   | "min" => some (Value.minmax true [a, b]) | "max" => some (Value.minmax false [a, b])
   | _ => none
 
-def evalHist (cached : Bool) (env : Env) : List Expr → EvState → List Sexp
-  | [], _ => []
-  | e :: es, s =>
-    let (r, s') := evalG cached env e s
-    R.toSexp r :: evalHist cached env es s'
-
 def handle : Sexp → Sexp
   | .list [.atom "pynum", .atom op, a, b] =>
     match Value.ofSexp? a, Value.ofSexp? b with
@@ -47,7 +41,7 @@ def handle : Sexp → Sexp
     | _, _ => bad "den args"
   | .list [.atom "evalhist", .atom c, env, .list es] =>
     match envOfSexp? env, Expr.ofSexpL? es with
-    | some env, some es => .list (evalHist (c == "true") env es {})
+    | some env, some es => .list ((runHist (c == "true") env es {}).map R.toSexp)
     | _, _ => bad "evalhist args"
   | .list [.atom "echo", e] =>
     match Expr.ofSexp? e with
